@@ -36,8 +36,10 @@ def _work(job):
             try:
                 rec = recorder.Recorder(c, obs=g.rec.obs.clone_for(c))
                 rec.vlen.update(g.rec.vlen); rec.names |= g.rec.names
-                r, o = rec.sync("--test-io-cache", "3", rules=["pwrite,/p0,%d,sigint" % (j + 1)])
-                d = ["SIGINT after parity write %d -> %s stop=%s" % (j + 1, o["exit"], rec.lines[-1]["args"]["opts"]["stop"])]
+                # (single-thread mode for the runs followed by copies: the stop is right after the stripe of that parity write,
+                # inside the first multi-block new file for the first ones)
+                r, o = rec.sync("--test-io-cache", "1" if j % 2 == 1 else "3", rules=["pwrite,/p0,%d,sigint" % (j // 2 + 1 if j % 2 == 1 else j + 1)])
+                d = ["SIGINT after parity write %d%s -> %s stop=%s" % (j // 2 + 1 if j % 2 == 1 else j + 1, " (single thread)" if j % 2 == 1 else "", o["exit"], rec.lines[-1]["args"]["opts"]["stop"])]
                 if j % 2 == 1 and confkw["nd"] > 1:
                     # before the sync is run again, files are copied (cp -p) to another disk: also files the stopped sync had
                     # reached only in part
